@@ -316,3 +316,27 @@ PROPS["C13"] = dict(
                "order-independent); structural option changes are followed by setup() as the API documents.",
     assumptions=["solve() without setup() is only generated when no structural option (grid, levels, strategy, extrapolation, FMG, threads) changed since the last setup()"],
 )
+
+PROPS["C19"] = dict(
+    harness="c19_manufactured", flavour="rel",
+    quick=dict(workers=8, cases=12000, min_nontrivial=300),
+    thorough=dict(workers=16, cases=120000, min_nontrivial=3000, budget_s=3000),
+    require_class_prefix=[("tuple_g", 66)],
+    rule="Selection tuples (geometry 0..3, problem 0..3, alpha 0..3, beta 0..1) drawn uniformly and pushed through "
+         "setParameters (the run fails as an infrastructure error unless all 66+ tuples the table accepts were hit; "
+         "rejected tuples are recorded), geometry parameters in their documented ranges (shipped defaults half of the time), "
+         "Rmax in [0.5,2], alpha_jump in [0.3,0.9]Rmax, R0/Rmax 1e-5..0.1; 24 points per case: r uniform, log-uniform "
+         "towards R0, within 5% of Rmax, within 10% of the profile's steep region; theta uniform plus multiples of pi/2. "
+         "8th-order central differences with three step sizes (best counts): Jacobian functions vs derivatives of (Fx,Fy) "
+         "(1e-7 relative; Culham 2e-4 with a wide stencil), source term vs -(1/|det|)d_i(alpha|det|g^ij d_j u)+beta u "
+         "(1e-6 of the sum of flux-term magnitudes), boundary data vs exact solution (1e-13), gyro alpha*beta=1 (8 eps). "
+         "Culham: Jacobian only. Non-trivial: every case. Distinct: (tuple, bucketed shape parameters, Rmax).",
+    technique="property-based testing (rapidcheck) over the complete selection table; oracle = high-order numerical differentiation of the mapping and of the manufactured solution",
+    level_text="Every accepted selection tuple is evaluated at generated points against an oracle that recomputes the "
+               "Jacobian and the strong form of the PDE for the selected exact solution by nested 8th-order finite "
+               "differences in (r,theta) with the metric of the mapping; the tuple table is covered completely in every run, "
+               "points and parameters are sampled. Exploration.",
+    level_note="Trusted: finite-difference truncation/round-off control (three step sizes, tolerance relative to the sum of "
+               "flux-term magnitudes).",
+    assumptions=["input functions are smooth a few step sizes beyond the sampled point"],
+)
